@@ -236,3 +236,35 @@ func VerifC01_FamilyRoles(cs int) {
 	}
 	vRoundtrip(doc, "family-roles")
 }
+
+// VerifC01_NestedFamily: a family record that is not a root record (a FAM node below another node, at
+// depth 1 or 3) with husband, wife and child lines inside it; with no root family before it (cs%2 == 0)
+// or after one (1); cs/2%2: depth 1 or 3.
+func VerifC01_NestedFamily(cs int) {
+	doc := NewDocument()
+	doc.HasBOM = VsBool("bom")
+	doc.AddNode(NewNode(TagFromString("HEAD"), "", ""))
+	if cs%2 == 1 {
+		first := doc.AddFamily("F1")
+		first.SetHusbandPointer("I1")
+	}
+	donorDoc := NewDocument()
+	fam := donorDoc.AddFamily("F" + vLegalPointer("fp", []int{1}))
+	fam.SetHusbandPointer("I" + vLegalPointer("hp", []int{1}))
+	fam.SetWifePointer("I2")
+	fam.AddChild(donorDoc.AddIndividual("I3"))
+	fam.AddNode(NewNode(TagNote, vLegalValue("fv", []int{2}), ""))
+	rec := NewNode(TagFromString("_GRP"), vLegalValue("rv", []int{0, 2}), "G1")
+	doc.AddNode(rec)
+	parent := rec
+	if cs/2%2 == 1 {
+		a := NewNode(TagFromString("_A"), "", "")
+		b := NewNode(TagFromString("_B"), "x", "")
+		rec.AddNode(a)
+		a.AddNode(b)
+		parent = b
+	}
+	parent.AddNode(fam)
+	doc.AddNode(NewNode(TagFromString("TRLR"), "", ""))
+	vRoundtrip(doc, "nested-family")
+}
